@@ -1,5 +1,6 @@
 import DirectVerif.Gen.C14
 import DirectVerif.Model.Recon
+import DirectVerif.Model.C14Loop
 /-!
 # Bridge C14 — what the translator reads in `reconstruct_volumes` / `_process_output` equals the model
 
@@ -79,5 +80,27 @@ theorem sampler_dispatch_eq : sampler_dispatch = expectedSamplerDispatch := rfl
 theorem resolution_facts_eq : resolution_facts = expectedResolutionFacts := rfl
 /-- `write_output_to_h5`: basename, channel 0 as float32, mode "w", key (`Recon.writeOutput`) -/
 theorem writer_facts_eq : writer_facts = expectedWriterFacts := rfl
+
+
+/-! ### phase 3 -/
+
+/-- the loop body reads `filename` (through `_get_filename_from_batch`), `scaling_factor`, `target`,
+`reconstruction_size` and hands the batch to `_do_iteration` — **not `slice_no`**: the window written is
+the running `slice_counter` range (`recon_write_lo_eq`, `recon_write_hi_eq`), as `Recon.rstep` /
+`Recon.rstepL` implement (`C14.reconstruct_ignores_slice_no`) -/
+theorem recon_loop_reads_eq : recon_loop_reads = expectedLoopReads := rfl
+/-- `curr_target` is reset with `curr_volume`, allocated as its clone, written at the same window from
+`_process_output(data["target"], same factors, same resolution)`; `loss_dict_list` is created before the
+loop, appended at allocation only and never cleared (`Recon.rstepL`); the tuple layout of the yield -/
+theorem recon_target_facts_eq : recon_target_facts = expectedTargetFacts := rfl
+/-- nothing on the reconstruction path keeps state outside locals, except `predict` setting
+`self.ndim` / `self.checkpointer` before the loop (so generator runs cannot influence one another) -/
+theorem recon_state_writes_ok : stateWritesOk recon_state_writes = true := by decide
+theorem recon_state_writes_eq : recon_state_writes = expectedStateWrites := by decide
+/-- `evaluate` consumes `reconstruct_volumes(loader, add_target=True, crop=cfg.validation.crop)` and keys
+the metrics by basename; `validation_loop` builds, per dataset, the sequential batch sampler without a
+volume limit and the loader exactly as `predict` does; `direct/inference.py` calls `predict` and
+`write_output_to_h5`; there is no other call site -/
+theorem recon_caller_facts_eq : recon_caller_facts = expectedCallerFacts := rfl
 
 end DirectVerif.Bridge.C14
